@@ -32,7 +32,7 @@ Init == /\ l = 1 /\ model = NoModel /\ stored = {} /\ bad = <<>>
 Ev1 == Trace[l]
 IsEvent(e) == l <= Len(Trace) /\ Trace[l].e = e /\ l' = l + 1
 
-OKs == {"OK_T", "OK_F", "OK_ERR", "OK_ERR_DECIDED","OK_LO", "OK_LO_ERR", "OK_LO_LIMIT", "OK_LU", "OK_LU_ERR", "OK_EXPAND",
+OKs == {"OK_T", "OK_F", "OK_ERR", "OK_ERR_DECIDED","OK_LO", "OK_LO_ERR", "OK_LO_ERR_OTHERCODE", "OK_LO_LIMIT", "OK_LU", "OK_LU_ERR", "OK_EXPAND", "OK_DUMP", "OK_BATCH",
         "SKIP_DEPTH", "SKIP_UNSTRATIFIED"}
 
 Bump(c, cls) == [x \in DOMAIN c \cup {cls} |-> IF x = cls THEN (IF x \in DOMAIN c THEN c[x] ELSE 0) + 1 ELSE c[x]]
@@ -75,6 +75,15 @@ CondSwallowed(M, TS, ctx, o, r) ==
     /\ <<te.o, te.r>> \in rk /\ te.c # "" /\ TupleReadValid(M, te) /\ CondVal(M, te, ctx) = "E"
     /\ \E sib \in TS \ {te} : sib.o = te.o /\ sib.r = te.r /\ TupleReadValid(M, sib) /\ CondVal(M, sib, ctx) = "T"
 
+\* The relation (or one it depends on at type level) has an intersection with two
+\* identical operands, e.g. "viewer from parent and viewer from parent": the
+\* weighted-graph ListObjects engine fails on such models with an internal error.
+HasDupOperand(M, t, r) ==
+  \E g \in TGoalKeys(M, t, r) :
+    /\ HasRel(M, g[1], g[2])
+    /\ \E x \in SubRw(Rw(M, g[1], g[2])) :
+         x.k = "inter" /\ \E i, j \in DOMAIN x.ch : i # j /\ x.ch[i] = x.ch[j]
+
 ---------------------------------------------------------------------------
 AllTuples(ev) == stored \cup SeqToSet(ev.ctxt)
 
@@ -116,7 +125,7 @@ ObjIds(TS, t) == {x.o.id : x \in {x \in TS : x.o.t = t}} \cup
                  {x.u.id : x \in {x \in TS : x.u.t = t /\ x.u.id # "*"}}
 
 ListObjectsClass(M, TS, ev) ==
-  LET ids == ObjIds(TS, ev.t)
+  LET ids == ObjIds(TS, ev.t) \cup (IF ev.u.t = ev.t /\ ev.u.id # "*" THEN {ev.u.id} ELSE {})  \* o#r is a member of itself
       val == [i \in ids |-> Holds(M, TS, ev.ctx, [t |-> ev.t, id |-> i], ev.r, ev.u)]
       R   == {i \in ids : val[i] = "T"}
       X   == SeqToSet(ev.got)
@@ -124,7 +133,12 @@ ListObjectsClass(M, TS, ev) ==
       kf(i) == SubCycle(M, TS, [t |-> ev.t, id |-> i], ev.r)
   IN IF deep THEN <<"SKIP_DEPTH", "">>
      ELSE IF ev.err THEN
-            IF ev.errk = "cond" /\ AnyE(M, TS, ev.ctx) THEN <<"OK_LO_ERR", "">> ELSE <<"BAD_LO_ERR", ToString(R)>>
+            IF ev.errk = "cond" /\ AnyE(M, TS, ev.ctx) THEN <<"OK_LO_ERR", "">>
+            \* the pipeline engine reports the same situation as an internal error (DESIGN 6.10):
+            \* accepted for C05's purposes, counted separately
+            ELSE IF ev.errk \in {"internal", "validation"} /\ AnyE(M, TS, ev.ctx) THEN <<"OK_LO_ERR_OTHERCODE", "">>
+            ELSE IF ev.errk = "internal" /\ HasDupOperand(M, ev.t, ev.r) THEN <<"KF_WeightedDupOperand", ToString(R)>>
+            ELSE <<"BAD_LO_ERR", ToString(R)>>
      ELSE IF Len(ev.got) # Cardinality(X) THEN <<"BAD_LO_DUP", ToString(R)>>
      ELSE IF ~(X \subseteq R) THEN <<"BAD_LO_UNSOUND", ToString(R)>>
      ELSE IF ev.limit = 0 \/ Cardinality(R) < ev.limit THEN
@@ -209,12 +223,30 @@ TrExpand ==
   /\ UNCHANGED <<model, stored>>
 
 ---------------------------------------------------------------------------
+\* StateDump: the store's tuples as read back through the public API must be
+\* exactly the abstract stored set (contextual tuples never persist; C04).
+TrStateDump ==
+  /\ IsEvent("StateDump")
+  /\ Judge(IF SeqToSet(Ev1.tuples) = stored /\ Len(Ev1.tuples) = Cardinality(stored) THEN "OK_DUMP" ELSE "BAD_DUMP", "", "dump")
+  /\ UNCHANGED <<model, stored>>
+
+\* BatchCheck structure (C07): exactly one outcome per correlation id.  The items
+\* themselves are judged as Check events emitted next to this one.
+TrBatch ==
+  /\ IsEvent("BatchCheck")
+  /\ LET ids == SeqToSet(Ev1.ids) res == SeqToSet(Ev1.resids) IN
+     Judge(IF Ev1.err THEN "BAD_BATCH_ERR"
+           ELSE IF ids = res /\ Len(Ev1.resids) = Cardinality(res) /\ Len(Ev1.ids) = Cardinality(ids) THEN "OK_BATCH"
+           ELSE "BAD_BATCH_IDS", "", "batch")
+  /\ UNCHANGED <<model, stored>>
+
+---------------------------------------------------------------------------
 TrEnd ==
   /\ IsEvent("End")
   /\ PrintT(<<"VERIF", "END", ToJson([l |-> l, judged |-> judged, skipped |-> skipped, bad |-> bad, counts |-> counts])>>)
   /\ UNCHANGED <<model, stored, bad, counts, judged, skipped>>
 
-Next == TrSetup \/ TrCheck \/ TrListObjects \/ TrListUsers \/ TrExpand \/ TrEnd
+Next == TrSetup \/ TrCheck \/ TrListObjects \/ TrListUsers \/ TrExpand \/ TrStateDump \/ TrBatch \/ TrEnd
 
 Spec == Init /\ [][Next]_vars
 
